@@ -700,6 +700,13 @@ def run(tier, seed):
         if m[0] == "err" and m[1] == "unmodelled":
             chk.count("unmodelled-skipped")
             continue
+        if m[0] == "err" and m[1] == "outOfVocabulary":
+            # the model is the specification here, not a model of the code: it only says the text is outside
+            # the vocabulary.  Checked: Python's own tokenizer agrees, or the code refuses the text anyway.
+            chk.count("model-out-of-vocabulary(spec, not compared)")
+            if voc is None and r != "upe":
+                chk.disagree("c20.parse", f"{s!r}: the model calls it outside the vocabulary, the tokenizer-based classifier does not, implementation {r}")
+            continue
         if voc is not None:
             # outside the vocabulary: the model must refuse; the code's acceptance is the finding above
             if m[0] == "ok":
@@ -750,6 +757,8 @@ def run(tier, seed):
         elif r == "exc":
             chk.fail(f"escape|{rep['exc']}|{rep['trig']}", f"Unit({bytes(b)!r}) raised {rep['exc']}, not UnitParseError", {"python": snip_bytes(b)})
         voc = rep.get("vocab")
+        if m[0] == "err" and len(m) > 1 and m[1] == "outOfVocabulary":
+            m = ["err", "UnitParseError"] if (voc is None) else m
         if r == "ok" and voc is not None:
             chk.fail(f"vocab|{voc}", f"Unit({bytes(b)!r}) accepted text outside the unit vocabulary ({voc})", {"python": snip_bytes(b).replace("    Unit(b)\n", "    u = Unit(b)\n    raise AssertionError(('accepted', b, u))\n")})
         if m[0] == "driver-failed" or (m[0] == "err" and m[1] == "unmodelled"):
@@ -865,7 +874,7 @@ def run(tier, seed):
                 if model_same != real_same:
                     chk.disagree("c20.print", f"{progs[k]}: re-parse of {which} {rep[which]!r}: model {m[j]} (want {want}) implementation {rep['rt_' + which]}")
         else:
-            chk.count("model:c20.layout")
+            chk.count("model-only:c20.layout(lexer/evaluator self-consistency, not a tie to the code)")
             if m[0] != "ok" or m[1] != want or (m[2] != want and not m[2].startswith("err|unmodelled")) or m[3] != "1":
                 chk.disagree("c20.layout", f"{progs[k]}: layout round trip broken in the model: {m} (want {want})")
 
@@ -914,7 +923,7 @@ def run(tier, seed):
                 continue
             if vd.startswith("raises:"):
                 want = "UnitParseError" if vd == "raises:UnitParseError" else vd[7:]
-                if not (m[0] == "err" and m[1] == want):
+                if not (m[0] == "err" and (m[1] == want or (want == "UnitParseError" and m[1] == "outOfVocabulary"))):
                     chk.disagree("c20.parse(spelling)", f"{text!r}: implementation {vd}, model {m[:3]}")
                 continue
             if rx is None or m[0] != "ok" or model_expr(m) != real_expr(rx):
